@@ -211,7 +211,7 @@ func declLines(out string, names ...string) string {
 	var b strings.Builder
 	for _, l := range strings.Split(out, "\n") {
 		for _, n := range names {
-			if strings.HasPrefix(l, "var "+n+" ") || strings.HasPrefix(l, "type "+n+" ") || strings.HasPrefix(l, "func "+n+"(") || strings.HasPrefix(l, "func "+n+"[") || strings.HasPrefix(l, "var Z ") {
+			if strings.HasPrefix(l, "var "+n+" ") || strings.HasPrefix(l, "type "+n+" ") || strings.HasPrefix(l, "type "+n+"[") || strings.HasPrefix(l, "func "+n+"(") || strings.HasPrefix(l, "func "+n+"[") || strings.HasPrefix(l, "var Z ") {
 				b.WriteString("    " + l + "\n")
 			}
 		}
@@ -365,6 +365,7 @@ func c13ConsEval(c *c13Cons) (sig, msg string, unsound bool) {
 		return "", "", true
 	}
 	var want string
+	bare := !c.Comparable && !c.Embed && !c.Method
 	fset := token.NewFileSet()
 	f, err := parser.ParseFile(fset, "p.go", typePrelude, parser.SkipObjectResolution)
 	if err != nil {
@@ -413,6 +414,21 @@ func c13ConsEval(c *c13Cons) (sig, msg string, unsound bool) {
 				panic(err)
 			}
 			fn.BodyStart(pkg).End()
+			if bare {
+				// the union itself as constraint (an implicit interface): written inline in the type
+				// parameter list of a generic type and of a function, `type Box[P *int | string,] ...`
+				union := func() types.Type { return mk().EmbeddedType(0) }
+				bp := types.NewTypeParam(types.NewTypeName(token.NoPos, pkg.Types, "P", nil), union())
+				fld := types.NewField(token.NoPos, pkg.Types, "v", bp, false)
+				pkg.NewType("Box").InitType(pkg, types.NewStruct([]*types.Var{fld}, nil), bp)
+				up := types.NewTypeParam(types.NewTypeName(token.NoPos, pkg.Types, "P", nil), union())
+				usig := types.NewSignatureType(nil, nil, []*types.TypeParam{up}, types.NewTuple(types.NewParam(0, pkg.Types, "p", up)), nil, false)
+				ufn, err := pkg.NewFuncWith(token.NoPos, "GU", usig, nil)
+				if err != nil {
+					panic(err)
+				}
+				ufn.BodyStart(pkg).End()
+			}
 		},
 	})
 	if !res.Accepted() {
@@ -430,10 +446,23 @@ func c13ConsEval(c *c13Cons) (sig, msg string, unsound bool) {
 	if got := oracle.TypeKey(gc.TypeParams().At(0).Constraint().Underlying()); got != want {
 		return "constraint-changed|type-param", fmt.Sprintf("GC's type parameter: the emitted constraint denotes a different type set\n  original: %s\n  emitted:  %s\n%s", want, got, declLines(res.Output[""], "GC")), false
 	}
+	if bare {
+		box, ok := scope.Lookup("Box").Type().(*types.Named)
+		if !ok || box.TypeParams().Len() != 1 {
+			return "constraint-changed|generic-type-decl-shape", fmt.Sprintf("type Box[P %s]: the emitted declaration is not a generic type with one type parameter\n%s", c, declLines(res.Output[""], "Box")), false
+		}
+		if got := oracle.TypeKey(box.TypeParams().At(0).Constraint().Underlying()); got != want {
+			return "constraint-changed|generic-type-decl", fmt.Sprintf("Box's type parameter: the emitted constraint denotes a different type set\n  original: %s\n  emitted:  %s\n%s", want, got, declLines(res.Output[""], "Box")), false
+		}
+		gu := scope.Lookup("GU").Type().(*types.Signature)
+		if got := oracle.TypeKey(gu.TypeParams().At(0).Constraint().Underlying()); got != want {
+			return "constraint-changed|inline-union-type-param", fmt.Sprintf("GU's type parameter: the emitted constraint denotes a different type set\n  original: %s\n  emitted:  %s\n%s", want, got, declLines(res.Output[""], "GU")), false
+		}
+	}
 	return "", "", false
 }
 
-var c13TermTypes = []string{"int", "int8", "int64", "uint", "uint8", "float32", "float64", "string", "bool", "complex128", "uintptr", "[]int", "*int", "map[string]int", "chan int", "func()", "struct{ a int }", "N0", "N2", "time.Duration", "[2]string"}
+var c13TermTypes = []string{"*string", "*N0", "int", "int8", "int64", "uint", "uint8", "float32", "float64", "string", "bool", "complex128", "uintptr", "[]int", "*int", "map[string]int", "chan int", "func()", "struct{ a int }", "N0", "N2", "time.Duration", "[2]string"}
 
 func typeReplayFindings(r *hx.Run, eval func(c *typeCase) (string, string)) {
 	for _, f := range r.Findings() {
